@@ -288,6 +288,21 @@ theorem C01_empty_source (A : DArr) (d : Arr) (ix : IndexArg) (ixs : List Ix) (s
 example : h5SelectedCount ⟨.int8, false, ⟨[2, 3], fun _ => .int 0⟩⟩ (.tuple [.ix (.slice none none (some (-1)))])
     = some 6 := by decide
 
+/-- no second code path: the methods `DataSet` and `H5DataSet` define are the ones the model knows, `DataArray`
+(bases `Entity`, `DataSet`) overrides only `dtype` and `_read_data`, and `Entity` shadows none of them — a new
+method (another read or write path, an override of something compiled from `DataSet`) changes these lists -/
+theorem C01_source_methods :
+    Nix.Gen.DataSet.dataSetMethods =
+      ["__array__", "__getitem__", "__setitem__", "__len__", "__iter__", "len", "shape", "size", "dtype",
+       "write_direct", "read_direct", "append", "_write_data", "_read_data", "data_extent", "data_extent.setter",
+       "data_type", "_get_dtype"] ∧
+    Nix.Gen.DataSet.h5DataSetMethods =
+      ["__init__", "create_from_h5obj", "write_data", "_is_empty", "_selected_count", "read_data",
+       "_convert_string_cols", "set_attr", "get_attr", "shape", "shape.setter", "dtype", "__str__"] ∧
+    Nix.Gen.DataSet.dataArrayOverrides = ["dtype", "_read_data"] ∧
+    Nix.Gen.DataSet.dataArrayBases = ["Entity", "DataSet"] ∧
+    Nix.Gen.DataSet.entityShadows = [] := ⟨rfl, rfl, rfl, rfl, rfl⟩
+
 /-- the methods of the read and creation paths that the model represents by hand (`__array__`, `read_direct`,
 `__iter__`, the dtype getters, `H5DataSet.__init__` with `maxshape=(None,)*rank`, `chunks=True` and the
 variable-length string type, `_is_empty`, `_selected_count`, `DataArray.create_new`) are what the model was
